@@ -34,14 +34,16 @@ def order(**kw):
     return o
 
 
-def dimcfg(vins=(), xins=None, hide=(), prune=False, order=None, smoother=None):
-    """smoother: None (no smoother transform) or {"win": int | None, "omit": bool}"""
+def dimcfg(vins=(), xins=None, hide=(), prune=False, order=None, smoother=None, junk=False):
+    """smoother: None (no smoother transform) or {"win": int | None, "omit": bool};
+    junk: the JSON insertion lists also carry entries that are not objects (they denote
+    nothing, so the spec never sees them)"""
     o = dict(ORDER_DEFAULTS)
     o.update(order or {})
     sm = ({"has": False, "win": None, "omit": False} if smoother is None
           else {"has": True, "win": smoother.get("win"), "omit": bool(smoother.get("omit"))})
     return {"vins": list(vins), "hasx": xins is not None, "xins": list(xins or ()),
-            "hide": sorted(hide), "prune": prune, "order": o, "smoother": sm}
+            "hide": sorted(hide), "prune": prune, "order": o, "smoother": sm, "junk": bool(junk)}
 
 
 def config(rows=None, cols=None):
@@ -131,7 +133,7 @@ def order_dict(o):
 def dim_transforms(dc):
     t = {}
     if dc["hasx"]:
-        t["insertions"] = [ins_dict(i) for i in dc["xins"]]
+        t["insertions"] = _with_junk([ins_dict(i) for i in dc["xins"]], dc)
     if dc["hide"]:
         t["elements"] = {str(i): {"hide": True} for i in dc["hide"]}
     if dc["prune"]:
@@ -165,8 +167,14 @@ def transforms_dict(cfg):
     return t
 
 
+def _with_junk(lst, dc):
+    if dc.get("junk") and lst:
+        return ["subtotal"] + lst[:1] + [None, 7] + lst[1:]
+    return lst
+
+
 def view_insertions(dc):
-    return [ins_dict(i) for i in dc["vins"]]
+    return _with_junk([ins_dict(i) for i in dc["vins"]], dc)
 
 
 # ---------------------------------------------------------------- generators
@@ -183,8 +191,8 @@ def random_insertion(rng, dim, k, allow_diff=True, with_id=None):
     neg = []
     if allow_diff and rng.random() < 0.45:
         neg = rng.sample(ids, rng.choice([1, 1, 2]))
-    if not pos and not neg:
-        pos = [rng.choice(valid)]
+    if not pos and not neg and rng.random() < 0.8:
+        pos = [rng.choice(valid)]       # (else: an insertion without terms, which is none)
     # the addends / subtrahends are SETS of ids: a repeated id changes nothing
     if pos and rng.random() < 0.15:
         pos = pos + [rng.choice(pos)]
@@ -216,13 +224,14 @@ def insertion_configs(rows_dim, cols_dim, n, seed, allow_diff=True, max_ins=2):
         m = rng.choice([0, 1, 1, 2][: max_ins + 2]) if not force else rng.choice([1, 2][:max_ins])
         all_ids = rng.random() < 0.7  # ids on all or on none (mixed handled by C07)
         ins = [random_insertion(rng, dim, k + 1, allow_diff, with_id=all_ids) for k in range(m)]
+        junk = rng.random() < 0.12
         if rng.random() < 0.5:
-            return dimcfg(vins=ins)
+            return dimcfg(vins=ins, junk=junk)
         if rng.random() < 0.3:
             # view insertions overridden by transform insertions
             other = [random_insertion(rng, dim, 7, allow_diff, with_id=True)]
-            return dimcfg(vins=other, xins=ins)
-        return dimcfg(xins=ins)
+            return dimcfg(vins=other, xins=ins, junk=junk)
+        return dimcfg(xins=ins, junk=junk)
 
     out = []
 
@@ -291,7 +300,8 @@ def order_configs(rows_dim, cols_dim, n, seed, with_prune=False, sort=False):
                 vins = ins
                 xins = rng.sample(ins, rng.randint(1, len(ins)))
         prune = with_prune and rng.random() < 0.6
-        return dimcfg(vins=vins, xins=xins, hide=hide, prune=prune, order=order)
+        return dimcfg(vins=vins, xins=xins, hide=hide, prune=prune, order=order,
+                      junk=rng.random() < 0.1)
 
     return [config(dc_for(rows_dim), dc_for(cols_dim)) for _ in range(n)]
 
